@@ -359,8 +359,10 @@ def run_callable(case):
         return {"events": [ev("entry/skip-init-refused", None, key="C12/callable/skip-init-refused")], "nontrivial": False, "counters": {"entry_calls": 0}}
     try:
         e, out = call_entry(case["entry"], smp, S, pd)
-        ok = bool(np.isfinite(float(e)))
-        info = {"energy": float(e)}
+        alive = float(np.sum(np.asarray(out["weights"]))) > 0
+        info = {"energy": float(e), "population_alive": alive}
+        # callable = returns; a finite energy is demanded only while some walker is alive (0/0 for an extinct population is C09's business)
+        ok = bool(np.isfinite(float(e))) if alive else None
     except Exception as exc:
         ok = False
         info = {"exc": repr(exc)[:300]}
